@@ -3,7 +3,7 @@ import ast
 
 from ..model import AnalysisError, dotted, unparse
 from ..structfmt import linform, lin_eq, local_defs
-from ..util import U, enum_paths, walk_no_nested, is_yield_call, is_socket_recv
+from ..util import RAW_I, POS, FACTS, FACTS_I, U, enum_paths, walk_no_nested, is_yield_call, is_socket_recv
 from ..paths import call_attr, call_name
 from . import c01, c07
 from .c02 import io_raises
@@ -16,7 +16,7 @@ LB = 'scales/loadbalancer/base.py'
 
 
 def facts(ev, upto=None):
-  return [(U(e.node).replace(' ', ''), e.info) for e in (ev if upto is None else ev[:upto]) if e.kind == 'cond']
+  return FACTS(ev if upto is None else ev[:upto])
 
 
 def check(ctx):
@@ -82,13 +82,13 @@ def r4(ctx):
     w = [i for i, e in enumerate(ev) if e.kind == 'call' and U(e.node.func) == 'self._socket.write']
     if not w:
       continue
-    fs = [(U(e.node).replace(' ', ''), e.info, i) for i, e in enumerate(ev[:w[0]]) if e.kind == 'cond']
+    fs = FACTS_I(ev[:w[0]])
     if (dl, True) not in [(a, b) for a, b, _ in fs]:
       continue
     n += 1
     # expiry comparison on a value whose linear form is deadline - time.time()
     chk = None
-    for c, t, i in fs:
+    for c, t, i in RAW_I(ev[:w[0]]):
       node = ev[i].node
       if isinstance(node, ast.Compare) and len(node.ops) == 1:
         l, r = node.left, node.comparators[0]
@@ -180,9 +180,9 @@ def r5(ctx):
   for ev, ex in enum_paths(ctx, sl, body=loops[0].body):
     w = [i for i, e in enumerate(ev) if e.kind == 'call' and U(e.node.func) == 'self._socket.write']
     hc = [i for i, e in enumerate(ev) if e.kind == 'call' and call_attr(e.node) == '_HandleTimeout']
-    fs = [(U(e.node).replace(' ', ''), e.info, i) for i, e in enumerate(ev) if e.kind == 'cond']
-    skip = [i for c, t, i in fs if c.startswith('self._HandleTimeout(') and t]
-    live = [i for c, t, i in fs if c.startswith('self._HandleTimeout(') and not t]
+    fs = FACTS_I(ev)
+    skip = [i for c, t, i in POS(fs) if c.startswith('self._HandleTimeout(') and t]
+    live = [i for c, t, i in POS(fs) if c.startswith('self._HandleTimeout(') and not t]
     if w:
       nw += 1
       ok = bool(live) and live[0] < w[0] and len(hc) == 1
